@@ -503,6 +503,18 @@ func effectPrograms() []string {
 	return ps
 }
 
+// constants that are == (tolerance, rendering of integers, equal instants) but not identical:
+// anything that merges, interns or caches constants by == rather than by identity shows here
+var nearEqualConstPrograms = []string{
+	`(1.0000000001 - 1) * 1000000000000`, `[0.25, 0.2500000001, 0.25]`, `0 + 1e-10 * 1e10`, `0.0000000002 / 0.0000000001`,
+	`["a": 3, "b": 3.0000000004]["b"] * 1e10 - 3e10`, `if(n1 > 1, 0.0000000002 / 0.0000000001, 0.0000000001)`, `lz(1.0000000001, 1) - 1`,
+	`[1, 1.0000000001][1] == 1`, `(1.0000000001 - 1.0000000002) * 1e12`, `1e-10 + 2e-10 + 3e-10 == 6e-10`, `[1e-10, 2e-10, 3e-10]`,
+	`len(union([1e-10], [2e-10]))`, `[1e-10: "a", 2e-10: "b"]`, `len([0.1: 1, 0.10000000001: 2])`, `1 / (0 * (0 - 1)) + 1 / 0`,
+	`[0, 0 * (0 - 1)]`, `[7, 7.0, 7.00000000001][2] - 7`, `"a" + "a" == "aa" && "a" != "a "`, `["x", "x"][1] + "x"`,
+	`[9007199254740992, 9007199254740993, 9007199254740994]`, `9007199254740993 - 9007199254740992`,
+	`['2020-01-01 00:00:00', '2020-01-01T00:00:00'][1] == '2020-01-01 00:00:00'`,
+}
+
 var optionalPrograms = []string{
 	`[mb] == [mb2]`, `[mb] != [mb2]`, `[mb2] == [mb]`, `["k": mb] == ["k": mb2]`, `{x: mb} == {x: mb2}`, `om == om2`, `om != om2`,
 	`[om] == [om2]`, `[om.p] == [om2.p]`, `[ms] == [ms]`, `[[mb], [mb2]] == [[mb2], [mb]]`, `len(union([mb], [mb2]))`, `len(intersect([mb], [mb2]))`,
@@ -526,6 +538,9 @@ func init() {
 			cs = append(cs, specialCases()...)
 			for _, p := range effectPrograms() {
 				cs = append(cs, evalCases(eng, envFamily, vals, p, "prog:effects")...)
+			}
+			for _, p := range nearEqualConstPrograms {
+				cs = append(cs, evalCases(eng, envFamily, vals, p, "prog:near-equal-constants")...)
 			}
 			// optionals that are never consumed: equality, containers, set functions and string
 			// conversion over present and absent values of one optional type (several draws, so
